@@ -429,6 +429,67 @@ where
     rep.hit("interleaved_output_of_frames_wider_than_32_channels");
 }
 
+/// A bus output is a signal like any other: it is exhausted when the source is AND it has nothing
+/// left to deliver. Here a sibling output drains the finite source and is dropped, the bus
+/// handle is dropped too, and the survivor - the only owner left, with the whole source still
+/// queued for it - is read through every exhaustion-aware route.
+fn bus_output_exhaustion(rep: &mut Report) {
+    use dasp_signal::bus::SignalBus;
+    for len in [0usize, 1, 6, 33] {
+        for route in 0..3usize {
+            let case = format!("kind=busout;len={};route={}", len, route);
+            let r = vmon::catch(|| -> Result<(), String> {
+                let frames: Vec<[i16; 2]> = (0..len).map(|i| [i as i16 + 1, -(i as i16) - 1]).collect();
+                let bus = signal::from_iter(frames.clone()).bus();
+                let mut leader = bus.send();
+                let survivor = bus.send();
+                for _ in 0..len + 2 {
+                    leader.next();
+                }
+                drop(leader);
+                drop(bus);
+                let mut survivor = survivor;
+                let pending = survivor.pending_frames();
+                if survivor.is_exhausted() != (pending == 0) {
+                    return Err(format!("sole surviving output with {} frames queued: is_exhausted() = {}", pending, survivor.is_exhausted()));
+                }
+                let want: Vec<[i16; 2]> = frames.iter().cloned().chain(std::iter::repeat([0i16; 2]).take(2)).collect();
+                let got: Vec<[i16; 2]> = match route {
+                    0 => survivor.until_exhausted().take(len + 8).collect(),
+                    1 => {
+                        let s: Vec<i16> = survivor.into_interleaved_samples().into_iter().take(2 * len + 16).collect();
+                        s.chunks(2).map(|c| [c[0], c[1]]).collect()
+                    }
+                    _ => {
+                        let mut v = Vec::new();
+                        while !survivor.is_exhausted() && v.len() < len + 8 {
+                            v.push(survivor.next());
+                        }
+                        v
+                    }
+                };
+                if got != want {
+                    return Err(format!("a {}-frame source drained by a sibling (2 calls past its end): the surviving output yields {:?} before reporting exhaustion, the frames queued for it are {:?}", len, got, want));
+                }
+                Ok(())
+            });
+            match r {
+                Ok(Ok(())) => {}
+                Ok(Err(d)) => {
+                    rep.violation("bus_output|exhaustion_with_a_backlog", d, case);
+                    return;
+                }
+                Err(m) => {
+                    rep.violation("bus_output|exhaustion|panic", m, case);
+                    return;
+                }
+            }
+            ev(len as u64 + 4);
+            rep.hit("bus_output_as_exhaustible_signal");
+        }
+    }
+}
+
 /// take(n) for n around the integer-width boundaries: len() / size_hint() report n - k after k
 /// items (never a truncated n), and the first items are the source's.
 fn huge_take(rep: &mut Report) {
@@ -496,6 +557,7 @@ fn main() {
             "from_iter" => check_from_iter(&mut rep, m["len"].parse().unwrap(), m["revive"] == "true", m["extra"].parse().unwrap()),
             "lift" => check_lift(&mut rep, m["len"].parse().unwrap()),
             "hugetake" => huge_take(&mut rep),
+            "busout" => bus_output_exhaustion(&mut rep),
             "wide" => {
                 wide_interleaved::<33>(&mut rep);
                 wide_interleaved::<300>(&mut rep);
@@ -539,6 +601,8 @@ fn main() {
             Err(_) => rep.violation("into_interleaved_samples|wide_frames|panic", "65 537 channels: the worker thread died".to_string(), "kind=wide;ch=65537".to_string()),
         }
     }
+    rep.oblige("bus_output_as_exhaustible_signal", 1);
+    bus_output_exhaustion(&mut rep);
     rep.oblige("take_n_at_least_2_pow_32", 1);
     huge_take(&mut rep);
 
